@@ -305,6 +305,23 @@ def dy_vec_atom(b: List[int], x: int, i: int, j: int) -> bool:
             got = VD[","](operand, operand); want = elems + elems
             if mode == "str":
                 want = "".join(want)
+        elif verb in (",e", ",el", ",p"):
+            # joining with a list of ANOTHER length: the empty list [] (a real-typed empty array in NumPy), the empty result of a
+            # Find, a proper prefix of the vector.  Elements keep their value AND their integer/character kind.
+            if mode == "str":
+                other = "" if verb != ",p" else operand[:i % (n + 1)]
+                oel = list(_chars(other))
+            else:
+                other = W.arr([]) if verb != ",p" else W.arr(b[:i % (n + 1)])
+                if verb == ",e" and j > 0:
+                    other = VD["?"](W.arr([1, 2]), 7)              # an empty list that comes out of a verb
+                oel = [] if verb != ",p" else b[:i % (n + 1)]
+            if verb == ",el":
+                got = VD[","](other, operand); want = oel + elems
+            else:
+                got = VD[","](operand, other); want = elems + oel
+            if mode == "str":
+                want = "".join(want)
         elif verb == "~":
             c = list(b)
             if n > 0 and 0 <= i < n:
@@ -729,7 +746,7 @@ def obligations(tier):
             if mode == "str" and v == ":^":
                 continue
             add("a%sb count x %s" % (v, mode), "dy_count_vec", {"verb": v, "mode": mode, "n": n, "amax": amax})
-        for v in ("@", "@l", "?", ":=", ":=l", ",r", ",l", ",,"):
+        for v in ("@", "@l", "?", ":=", ":=l", ",r", ",l", ",,", ",e", ",el", ",p"):
             add("%s vector(%s) x atom" % (v, mode), "dy_vec_atom", {"verb": v, "mode": mode, "n": n})
         for v in (":#", ":_", ":^"):
             if mode == "str" and v == ":^":
